@@ -682,23 +682,6 @@ def spec_servername__ParseAndValidateServerName : List String := [
   "return"
 ]
 
-def spec_servername__isDNSNameChar : List String := [
-  "func func(r rune) bool",
-  "if r >= 'A' && r <= 'Z' {",
-  "return true",
-  "}",
-  "if r >= 'a' && r <= 'z' {",
-  "return true",
-  "}",
-  "if r >= '0' && r <= '9' {",
-  "return true",
-  "}",
-  "if r == '-' || r == '.' {",
-  "return true",
-  "}",
-  "return false"
-]
-
 def spec_servername__splitServerName : List String := [
   "func func(serverName ServerName) (string, int)",
   "nameStr := string(serverName)",
@@ -718,6 +701,6 @@ def spec_servername_type_ServerName : List String := [
   "type ServerName string"
 ]
 
-def functions : List String := ["fclient/client.go:Client.CreateMediaDownloadRequest", "fclient/client.go:Client.DoHTTPRequest", "fclient/client.go:Client.DoRequestAndParseResponse", "fclient/client.go:Client.GetServerKeys", "fclient/client.go:Client.GetVersion", "fclient/client.go:Client.LookupServerKeys", "fclient/client.go:Client.LookupUserInfo", "fclient/client.go:Client.SetUserAgent", "fclient/client.go:.NewClient", "fclient/client.go:.WithAllowDenyNetworks", "fclient/client.go:.WithDNSCache", "fclient/client.go:.WithKeepAlives", "fclient/client.go:.WithSkipVerify", "fclient/client.go:.WithTimeout", "fclient/client.go:.WithTransport", "fclient/client.go:.WithUserAgent", "fclient/client.go:.WithWellKnownSRVLookups", "fclient/client.go:.allowDenyNetworksControl", "fclient/client.go:.inRange", "fclient/client.go:.isAllowed", "fclient/client.go:.makeHTTPSURL", "fclient/client.go:.newDestinationTripper", "fclient/client.go:.newDestinationTripperDialer", "fclient/client.go:destinationTripper.RoundTrip", "fclient/client.go:destinationTripper.getTransport", "fclient/client.go:destinationTripper.reaper", "fclient/client.go:destinationTripper.wellKnownTransport", "fclient/client.go:type Client", "fclient/client.go:type ClientOption", "fclient/client.go:type UserInfo", "fclient/client.go:type clientOptions", "fclient/client.go:type destinationTripper", "fclient/client.go:type destinationTripperTransport", "fclient/dnscache.go:DNSCache.DialContext", "fclient/dnscache.go:DNSCache.dialContext", "fclient/dnscache.go:DNSCache.dialContextVia", "fclient/dnscache.go:DNSCache.lookup", "fclient/dnscache.go:.NewDNSCache", "fclient/dnscache.go:.chainControls", "fclient/dnscache.go:type DNSCache", "fclient/dnscache.go:type controlFunc", "fclient/dnscache.go:type dnsCacheEntry", "fclient/dnscache.go:type netResolver", "fclient/resolve.go:.ResolveServer", "fclient/resolve.go:.handleNoWellKnown", "fclient/resolve.go:.lookupSRV", "fclient/resolve.go:.resolveServer", "fclient/resolve.go:type ResolutionResult", "fclient/well_known.go:.LookupWellKnown", "fclient/well_known.go:.withWellKnownTransport", "fclient/well_known.go:type WellKnownResult", "fclient/well_known.go:type wellKnownTransportKey", "spec/servername.go:.ParseAndValidateServerName", "spec/servername.go:.isDNSNameChar", "spec/servername.go:.splitServerName", "spec/servername.go:type ServerName"]
+def functions : List String := ["fclient/client.go:Client.CreateMediaDownloadRequest", "fclient/client.go:Client.DoHTTPRequest", "fclient/client.go:Client.DoRequestAndParseResponse", "fclient/client.go:Client.GetServerKeys", "fclient/client.go:Client.GetVersion", "fclient/client.go:Client.LookupServerKeys", "fclient/client.go:Client.LookupUserInfo", "fclient/client.go:Client.SetUserAgent", "fclient/client.go:.NewClient", "fclient/client.go:.WithAllowDenyNetworks", "fclient/client.go:.WithDNSCache", "fclient/client.go:.WithKeepAlives", "fclient/client.go:.WithSkipVerify", "fclient/client.go:.WithTimeout", "fclient/client.go:.WithTransport", "fclient/client.go:.WithUserAgent", "fclient/client.go:.WithWellKnownSRVLookups", "fclient/client.go:.allowDenyNetworksControl", "fclient/client.go:.inRange", "fclient/client.go:.isAllowed", "fclient/client.go:.makeHTTPSURL", "fclient/client.go:.newDestinationTripper", "fclient/client.go:.newDestinationTripperDialer", "fclient/client.go:destinationTripper.RoundTrip", "fclient/client.go:destinationTripper.getTransport", "fclient/client.go:destinationTripper.reaper", "fclient/client.go:destinationTripper.wellKnownTransport", "fclient/client.go:type Client", "fclient/client.go:type ClientOption", "fclient/client.go:type UserInfo", "fclient/client.go:type clientOptions", "fclient/client.go:type destinationTripper", "fclient/client.go:type destinationTripperTransport", "fclient/dnscache.go:DNSCache.DialContext", "fclient/dnscache.go:DNSCache.dialContext", "fclient/dnscache.go:DNSCache.dialContextVia", "fclient/dnscache.go:DNSCache.lookup", "fclient/dnscache.go:.NewDNSCache", "fclient/dnscache.go:.chainControls", "fclient/dnscache.go:type DNSCache", "fclient/dnscache.go:type controlFunc", "fclient/dnscache.go:type dnsCacheEntry", "fclient/dnscache.go:type netResolver", "fclient/resolve.go:.ResolveServer", "fclient/resolve.go:.handleNoWellKnown", "fclient/resolve.go:.lookupSRV", "fclient/resolve.go:.resolveServer", "fclient/resolve.go:type ResolutionResult", "fclient/well_known.go:.LookupWellKnown", "fclient/well_known.go:.withWellKnownTransport", "fclient/well_known.go:type WellKnownResult", "fclient/well_known.go:type wellKnownTransportKey", "spec/servername.go:.ParseAndValidateServerName", "spec/servername.go:.splitServerName", "spec/servername.go:type ServerName"]
 
 end VPins.C16
